@@ -271,6 +271,6 @@ def run(F, tier, res):
                             'start + length: the gutter width is computed from the wrong pair', where=F.span_of_call(c))
             else:
                 okmx += 1
-    res.rule('C07.MAX-END', nmx, 1, 'max()/min() calls in functions taking the coordinate list: none compares (start, length) tuples as such', discharged=okmx)
+    res.rule('C07.MAX-END', nmx, 0, 'max()/min() calls in functions taking the coordinate list: none compares (start, length) tuples as such', discharged=okmx)
     res.distinct.update(r['rule'] for r in res.rules)
     return res
